@@ -59,7 +59,7 @@ def run_fuzz(targets, seed, outdir, env):
             # each shard writes its failing input into its own directory
             procs.append((t, i, subprocess.Popen(
                 [sys.executable, os.path.join(VERIF, 'vf', 'fuzz', t + '.py'), f'-runs={runs}',
-                 f'-seed={seed * 100 + i + 1}', cdir], cwd=VERIF, env=dict(fenv, FUZZ_OUT=cdir),
+                 f'-seed={seed * 100 + i + 1}', f'-artifact_prefix={cdir}/', cdir], cwd=VERIF, env=dict(fenv, FUZZ_OUT=cdir),
                 stdout=log, stderr=subprocess.STDOUT)))
     stats = {'runs_per_shard': dict(targets), 'shards': 8, 'executions': 0, 'crashing_inputs': 0, 'edges_covered': {}}
     files = []
